@@ -185,9 +185,10 @@ bounded('C13',
         'database primitive klepto reaches (os.remove/unlink/rename/renames/replace/mkdir/makedirs/rmdir, open-for-write, write (also after '
         'half of the data), close, sqlite execute/commit) and a fresh process then opens and reads the archive; the recovered contents must be '
         'readable, old-or-new for every touched key, unchanged for every other key, with no key that was never stored. Every crash index of '
-        'every operation of the scope is enumerated (exhaustive for that scope).',
+        'every operation of the scope is enumerated (exhaustive for that scope). In addition the writer of one large value is killed by the kernel '
+        '(file-size limit, SIGXFSZ) at six places inside the write calls of the library / of sqlite\'s commit.',
         'DESIGN.md 5 C13',
-        'crash granularity is the Python-level primitive plus half-written data; no power-failure/fsync model; sqlite journalling trusted; one '
+        'crash granularity is the Python-level primitive plus half-written data (plus the six kernel-kill places); no power-failure/fsync model; sqlite journalling trusted otherwise; one '
         'listed finding (dir_archive overwrite window). Level-A part (pyvc, counted in coverage.obligations): for file_archive(serialized=True) '
         'the real __save__/__asdict__/__init__ and the eight mutating mapping methods are proved, over an ASSUMED file-system contract, to leave '
         'old or new contents readable after every single effect (contracts/fs_contracts.py); dir_archive and sqlite have no such proof.',
